@@ -13,12 +13,6 @@ def peerName (p : Nat) : String := s!"p{p}"
 def parsePeer (s : String) : Option Nat :=
   if s.startsWith "p" then (s.drop 1).toString.toNat? else none
 
-def insertSorted (x : String) : List String → List String
-  | [] => [x]
-  | y :: ys => if x < y then x :: y :: ys else y :: insertSorted x ys
-
-def sortStrings (xs : List String) : List String := xs.foldl (fun acc x => insertSorted x acc) []
-
 /-- history of all slots ever created: (peer, gen), oldest first -/
 def runLabel (hist : List (Nat × Nat)) (peer gen : Nat) : String :=
   let n := (hist.filter (fun (p, g) => p == peer && g < gen)).length
